@@ -591,7 +591,11 @@ def run_script(ops_or_len, rng, drv, res, fast=True, c14=False):
                 diff = [(a, b) for a, b in zip(di, dm) if a != b][:3]
                 findings.append({"kind": "corr", "signature": "names.%s.state" % op["t"], "step": len(script) - 1, "detail": "state differs", "impl": [d[0] for d in diff], "model": [d[1] for d in diff]})
             # lookups: implementation vs scan (P) and vs model (correspondence)
-            for (e, ck, key, v, got, scan) in queries(W, drv, rng, full=not gen or (k % 7 == 0)):
+            # a lookup makes the library build the lazily kept table of a fresh clone: after half of the clone calls
+            # (decided by the op itself, so replays agree) nothing is looked up, so that the NEXT call meets the copy
+            # exactly as clone() left it
+            quiet = op["t"] == "clone" and int(stable_hash(op), 16) % 2 == 0
+            for (e, ck, key, v, got, scan) in ([] if quiet else queries(W, drv, rng, full=not gen or (k % 7 == 0))):
                 if got != scan:
                     what = "missed" if len(got) < len(scan) else "ghost"
                     if len(scan) > 1 and len(got) == 1 and got[0] in scan:
